@@ -795,6 +795,83 @@ fn run_op(cache: &mut Cache, op: &OpKind) -> Ret {
             Ret::Items(IterKind::Iter, parse_debug(&s))
         }
         OpKind::Nop => Ret::Items(IterKind::Iter, vec![]),
+        OpKind::Readers { threads, seed } => {
+            run_readers(&*cache, *threads as usize, *seed);
+            Ret::Items(IterKind::Iter, vec![])
+        }
+    }
+}
+
+/// One shared-reference operation of the reader script, with everything it returns as text.
+fn run_shared(cache: &Cache, step: u64) -> String {
+    let len = cache.len() as u64;
+    let id = (step >> 8) as u32 % (len as u32 + 6);
+    match step % 13 {
+        0 => format!("peek {:?}", cache.peek(&KId(id)).map(vd)),
+        1 => format!("peeke {:?}", cache.peek_entry(&KId(id)).map(|(k, v)| (kd(k), vd(v)))),
+        2 => format!("has {}", cache.contains(&KId(id))),
+        3 => format!("lru {:?}", cache.peek_lru().map(|(k, v)| (kd(k), vd(v)))),
+        4 => format!("mru {:?}", cache.peek_mru().map(|(k, v)| (kd(k), vd(v)))),
+        5 => format!("nums {} {} {} {} {}", cache.len(), cache.is_empty(), cache.current_size(), cache.max_size(), cache.capacity()),
+        6 => format!("iter {:?}", cache.iter().map(|(k, v)| (kd(k), vd(v))).collect::<Vec<_>>()),
+        7 => format!("riter {:?}", cache.iter().rev().map(|(k, v)| (kd(k), vd(v))).collect::<Vec<_>>()),
+        8 => format!("keys {:?}", cache.keys().map(kd).collect::<Vec<_>>()),
+        9 => format!("rvalues {:?}", cache.values().rev().map(vd).collect::<Vec<_>>()),
+        10 => format!("dbg {:?}", cache),
+        11 => {
+            // both ends alternately
+            let mut it = cache.iter();
+            let mut out = Vec::new();
+            loop {
+                match it.next() { Some((k, _)) => out.push(kd(k).id), None => break }
+                match it.next_back() { Some((k, _)) => out.push(kd(k).id), None => break }
+            }
+            format!("zip {:?}", out)
+        }
+        _ => {
+            // clone: compared by contents (the copies carry their own tokens), then dropped here
+            let c2 = cache.clone();
+            let a: Vec<(u32, usize, usize)> = c2.iter().map(|(k, v)| (kd(k).id, kd(k).heap, vd(v).heap)).collect();
+            format!("clone {:?} {} {}", a, c2.current_size(), c2.max_size())
+        }
+    }
+}
+
+/// C19: the script is run once alone, then by `threads` threads at the same time on the same
+/// `&LruCache`; every thread must see exactly what the lone run saw. (Under Miri this is also
+/// checked for data races.)
+fn run_readers(cache: &Cache, threads: usize, seed: u64) {
+    let was = with_ctx(|c| std::mem::replace(&mut c.quiet, true));
+    let mut x = seed | 1;
+    let script: Vec<u64> = (0..24).map(|_| {
+        x ^= x << 13;
+        x ^= x >> 7;
+        x ^= x << 17;
+        x >> 3
+    }).collect();
+    let expected: Vec<String> = script.iter().map(|s| run_shared(cache, *s)).collect();
+    let bad: Vec<String> = std::thread::scope(|sc| {
+        let hs: Vec<_> = (0..threads).map(|t| {
+            let script = &script;
+            let expected = &expected;
+            sc.spawn(move || {
+                with_ctx(|c| c.quiet = true);
+                let mut bad = Vec::new();
+                for i in 0..script.len() {
+                    let j = (i + 5 * t) % script.len();
+                    let got = run_shared(cache, script[j]);
+                    if got != expected[j] {
+                        bad.push(format!("reader {} saw `{}` where the lone run saw `{}`", t, got, expected[j]));
+                    }
+                }
+                bad
+            })
+        }).collect();
+        hs.into_iter().flat_map(|h| h.join().unwrap_or_else(|_| vec!["a reader thread panicked".to_owned()])).collect()
+    });
+    with_ctx(|c| c.quiet = was);
+    for b in bad.into_iter().take(3) {
+        with_ctx(|c| c.violations.push(format!("C19 {}", b)));
     }
 }
 
